@@ -427,6 +427,32 @@ Definition env_cl (e : list (list N * list N)) : Z :=
   | Some [] => 0
   | Some v => atoll v
   end.
+(* on_headers_chunk_read, after the comma test:
+     if(buffer_.size() > sep_ + 2 && buffer_[buffer_.size()-2]!=0) -> protocol_violation
+   i.e. a non-empty header block must end in NUL, so that every strlen of the scan below ends inside buffer_.
+   None = the read of buffer_[size-2] is outside the buffer, Some false = protocol violation, Some true = scan *)
+Definition scgi_block_terminated (buf : list N) (sep size : Z) : option bool :=
+  if size >? sep + 2 then
+    match rd buf (size - 2) with
+    | None => None
+    | Some b => Some (N.eqb b 0)
+    end
+  else Some true.
+(* the input class of the defect repaired by 236058f, as a decidable predicate on the bytes of the connection: the netstring
+   is accepted by on_first_read, complete, ends in a comma, its header block is not empty and its last byte is not NUL.
+   checks/C02.py computes the same class from the bytes it sends (scgi_unterminated) and demands the repaired behaviour of
+   the implementation on it; the two definitions are compared on every generated SCGI case *)
+Definition scgi_sep (s : list N) : Z := Z.of_nat (find_colon (firstn 16 s) 0).
+Definition scgi_len (s : list N) : Z := atoi (cstr (firstn (Z.to_nat (scgi_sep s)) (firstn 16 s))).
+(* index of the last byte of the header block (the byte before the comma) *)
+Definition scgi_block_end (s : list N) : Z := scgi_sep s + scgi_len s.
+Definition rd_is (buf : list N) (i : Z) (c : N) : bool := match rd buf i with Some b => N.eqb b c | None => false end.
+Definition scgi_unterminated_class (s : list N) : bool :=
+  let sep := scgi_sep s in
+  let len := scgi_len s in
+  let size := sep + 2 + len in
+  (16 <=? Z.of_nat (length s)) && (sep <? 16) && (0 <? len) && (len <=? 16384) && (16 <? size) &&
+  (size <=? Z.of_nat (length s)) && rd_is s (size - 1) 44 && negb (rd_is s (size - 2) 0).
 Definition scgi_run (s : list N) : list item * counters :=
   if Z.of_nat (length s) <? 16 then ([IEnd], c0)
   else
@@ -448,6 +474,10 @@ Definition scgi_run (s : list N) : list item * counters :=
           | Some last =>
               if negb (N.eqb last 44) then ([IEnd], c0)
               else
+                match scgi_block_terminated buf sep size with
+                | None => ([IUnsafe], c0)
+                | Some false => ([IEnd], c0)     (* protocol_violation: the last string of the block has no NUL *)
+                | Some true =>
                 match scgi_env (length buf) buf (sep + 1) (size - 1) [] with
                 | None => ([IUnsafe], c0)
                 | Some e =>
@@ -459,6 +489,7 @@ Definition scgi_run (s : list N) : list item * counters :=
                         if Z.of_nat (length rest) <? n then ([IEnd], error_counters setup)
                         else ([IOk a], handler_counters a setup)
                     end
+                end
                 end
           end.
 
@@ -569,8 +600,21 @@ Fixpoint stdin_loop (fuel : nat) (s : list N) (rid : Z) (need : Z) : option (lis
           else stdin_loop f rest rid (need - f_clen h)
       end
   end.
+(* both parse_pairs overloads as called on the whole of body_:
+     if(body_.empty()) return true;
+     unsigned char const *p = &body_.front();  e = p + body_.size();  while(p<e) ...
+   &body_.front() is defined only for a non-empty vector: it is modelled as the bounds-checked read of index 0 *)
+Definition parse_pairs_all (body : list N) : pairs_res :=
+  match body with
+  | [] => PTrue []
+  | _ :: _ =>
+      match rd body 0 with
+      | None => PUnsafe
+      | Some _ => parse_pairs (S (length body)) body 0 (Z.of_nat (length body)) []
+      end
+  end.
 Definition env_of_params (body : list N) : option (list (list N * list N)) :=
-  match parse_pairs (S (length body)) body 0 (Z.of_nat (length body)) [] with
+  match parse_pairs_all body with
   | PUnsafe => None
   | PFalse acc => Some (cstr_pairs acc)     (* the result of parse_pairs() is ignored by params_record_expected *)
   | PTrue acc => Some (cstr_pairs acc)
@@ -591,30 +635,28 @@ Definition fcgi_after_headers (k : list N -> list item * counters) (e : list (li
       | Some rest3 => continue a (handler_counters a setup) rest3
       end
   end.
-(* alloc: body_ has held data before on this connection object (its storage is not null) *)
-Fixpoint fcgi_conn (fuel : nat) (s : list N) (alloc : bool) : list item * counters :=
+(* on_start_request and what follows it; one iteration = one record read by async_read_headers *)
+Fixpoint fcgi_conn (fuel : nat) (s : list N) : list item * counters :=
   match fuel with
   | O => ([IFuel], c0)
   | S f =>
       match read_record s with
       | None => ([IEnd], c0)
       | Some (h, content, rest) =>
-          let alloc1 := alloc || (0 <? f_clen h + f_plen h) in
           if negb (f_version h =? 1) then ([IEnd], c0)
           else if f_type h =? 9 then
-            if negb alloc1 then ([IUnsafe], c0)   (* &body_.front() of a vector that never had storage *)
-            else
-            match parse_pairs (S (length content)) content 0 (Z.of_nat (length content)) [] with
+            (* GET_VALUES: an empty body is a valid (empty) question and gets an empty GET_VALUES_RESULT *)
+            match parse_pairs_all content with
             | PUnsafe => ([IUnsafe], c0)
             | PFalse _ => ([IEnd], c0)
-            | PTrue acc => let (l, c) := fcgi_conn f rest alloc1 in (IGetValues (gv_answer acc) :: l, c)
+            | PTrue acc => let (l, c) := fcgi_conn f rest in (IGetValues (gv_answer acc) :: l, c)
             end
-          else if negb (f_type h =? 1) then fcgi_conn f rest alloc1
+          else if negb (f_type h =? 1) then fcgi_conn f rest
           else if negb (Z.of_nat (length content) =? 8) then ([IEnd], c0)
           else
             let role := zb (nth 0 content 0%N) * 256 + zb (nth 1 content 0%N) in
             let keep := Z.odd (zb (nth 2 content 0%N)) in
-            if negb (role =? 1) then let (l, c) := fcgi_conn f rest true in (IUnknownRole :: l, c)
+            if negb (role =? 1) then let (l, c) := fcgi_conn f rest in (IUnknownRole :: l, c)
             else
               let rid := f_id h in
               match params_loop (S (length rest)) rest rid [] with
@@ -629,11 +671,11 @@ Fixpoint fcgi_conn (fuel : nat) (s : list N) (alloc : bool) : list item * counte
                         | None => ([IEnd], c0)
                         | Some (h2, _, rest2) =>
                             if negb (f_type h2 =? 5) || negb (f_clen h2 =? 0) then ([IEnd], c0)
-                            else fcgi_after_headers (fun r => fcgi_conn f r true) e keep rid rest2
+                            else fcgi_after_headers (fun r => fcgi_conn f r) e keep rid rest2
                         end
-                      else fcgi_after_headers (fun r => fcgi_conn f r true) e keep rid rest1
+                      else fcgi_after_headers (fun r => fcgi_conn f r) e keep rid rest1
                   end
               end
       end
   end.
-Definition fcgi_run (s : list N) : list item * counters := fcgi_conn (S (length s)) s false.
+Definition fcgi_run (s : list N) : list item * counters := fcgi_conn (S (length s)) s.
